@@ -134,6 +134,11 @@ class C22(Property):
                 d = p.driver.get_constraint_values(viol=True,
                                                    driver_scaling=case['driver_scaling'])
                 res['v'] = rats(np.asarray(d['y']).ravel().tolist())
+                # a result that is held while the driver is asked again (what the least-squares
+                # residual of find_feasible does with linear / nonlinear constraints) must not change
+                p.driver.get_constraint_values(viol=False, driver_scaling=not case['driver_scaling'])
+                p.driver.get_constraint_values(viol=False, driver_scaling=case['driver_scaling'])
+                res['v_held'] = rats(np.asarray(d['y']).ravel().tolist())
                 # the model itself must not have been disturbed
                 res['y_after'] = rats(np.asarray(p.get_val('y')).ravel().tolist())
         except Exception as e:   # compared as an error branch
@@ -183,6 +188,9 @@ class C22(Property):
         if got != exp:
             return {'what': 'violation differs from signed distance (x scaler)',
                     'expected': rats(exp), 'got': impl['v']}
+        if impl.get('v_held') is not None and impl['v_held'] != impl['v']:
+            return {'what': 'a returned violation array changed when the driver was queried again',
+                    'first': impl['v'], 'held': impl['v_held']}
         if impl['y_after'] != case['g']:
             return {'what': 'model output changed by the query', 'got': impl['y_after']}
         return None
